@@ -1293,14 +1293,22 @@ def _reply_shape(run):
     run.floor("R2", "command returns", nret, 40)
     gate = P.func("comm.protocol.HSM2Protocol.__internal_handle_request")
     gg_ = A.cfg(gate, P.cls("comm.protocol.HSM2Protocol"))
-    opcalls = [x for n in A.own_nodes(gate) if isinstance(n, ast.Call) and isinstance(n.func, ast.Subscript) and norm(n.func.value) == "self._mappings" for x in gg_.nodes_of(n)]
-    run.require(len(opcalls) >= 1, "gate: the operation call self._mappings[command](request) was not identified")
+    def _is_op_call(n):
+        if isinstance(n.func, ast.Subscript) and norm(n.func.value) == "self._mappings":
+            return True
+        if isinstance(n.func, ast.Name):        # the handler looked up first and called afterwards
+            ds_ = defs_of(A, gate, n.func.id)
+            return bool(ds_) and all(getattr(d_, "value", None) is not None and "self._mappings" in norm(d_.value) for d_ in ds_)
+        return False
+    opcalls = [x for n in A.own_nodes(gate) if isinstance(n, ast.Call) and _is_op_call(n) for x in gg_.nodes_of(n)]
+    if not opcalls:
+        run.note("gate: the operation call was not identified; returns of plain names are judged by shape only")
     for r in [n for n in A.own_nodes(gate) if isinstance(n, ast.Return)]:
         v = r.value
         ok = (isinstance(v, ast.Call) and call_name(v) in ("format_error", "_invalid_request", "_wrong_version",
                                                             "_command_unknown")) \
             or (isinstance(v, ast.Dict) and len(v.keys) == 1 and norm(v.keys[0]) == "self.ERROR_CODE_KEY") \
-            or all(any(gg_.dominates(o, rn) for o in opcalls) for rn in gg_.nodes_of(r))       # the operation's reply: assembled as rule A.R8 says
+            or (bool(opcalls) and all(any(gg_.dominates(o, rn) for o in opcalls) for rn in gg_.nodes_of(r)))       # the operation's reply: assembled as rule A.R8 says
         run.check("R2", ok, "gate return is an errorcode dict", key=f"gate|return {norm(v)[:40]}|shape",
                   where=gate.loc(r), message=f"the gate returns `{norm(v)[:60]}`")
     # the operation's (code, data) pair becomes {.., errorcode: code}: reply assembly (rule R8 of C13) under the prefix A.
